@@ -20,7 +20,9 @@ def allowed_escape(block):
     if not r.startswith("R raised ValueConstraintViolatedError"):
         return False
     kv = dict(t.split("=", 1) for t in r.split(" ")[3:] if "=" in t)
-    return kv.get("type") == "TPM_CC" or kv.get("path", "").endswith("commandCode") or kv.get("type", "").startswith("TPMU")
+    # (a) the message's own command code has no layouts: raised at `.commandCode` of the message, not at an ordinary TPM_CC field
+    # (b) a union selector that selects no member
+    return kv.get("path") == ".commandCode" or kv.get("type", "").startswith("TPMU")
 
 
 def tiling_problem(case, block, L):
@@ -42,7 +44,7 @@ def tiling_problem(case, block, L):
                 pending_tpm2b = path if ty.startswith("TPM2B") else None
                 continue
             if ty not in L["prims"]:
-                return None
+                return f"event {path} carries a value of type {ty}, which is no primitive type of the pinned layout"
             w = L["prims"][ty]["size"]
             chunk = data[pos:pos + w]
             if len(chunk) < w:
@@ -91,6 +93,8 @@ def run(ctx, replay_case):
     rnd = random.Random(ctx.seed)
     L, cases = C07.build_inputs(ctx, rnd)
     cases = [c for c in cases if not c.kind.startswith("wf_")]
+    # exhaustive small world: every short string over a small alphabet read as nested size-prefixed / counted types
+    cases += ds.small_world(ctx.tier)
     res = ds.run_both(cases, "W")
     wi, wm = res["W"]
     ds.correspondence_violation(ctx, "DEC warn", cases, "W", wi, wm)
